@@ -373,7 +373,6 @@ theorem PInv_stepReadStep {s s' : State} {k : Key} (hi : PInv s) (h : stepReadSt
     | (red; simp_all [cntOf, szOf, frames] <;> omega)
     | skip
   all_goals (intro g hg; have hd := hi.dlen k; simp_all [frames])
-  all_goals trace_state
-  all_goals sorry
+  all_goals (rcases hg with rfl | hg <;> [(simp only [List.length_drop]; omega); exact hd.2 g hg])
 
 end EraVerif.Proofs.Mux
